@@ -46,20 +46,27 @@ func main() {
 		fmt.Fprintf(os.Stderr, "factgen: %s: %v\n", *prop, err)
 		os.Exit(1)
 	}
-	if len(x.errs) > 0 {
-		for _, e := range x.errs {
-			fmt.Fprintf(os.Stderr, "factgen: %s: %s\n", *prop, e)
-		}
-		os.Exit(1)
+	failed := len(x.errs) > 0
+	for _, e := range x.errs {
+		fmt.Fprintf(os.Stderr, "factgen: %s: %s\n", *prop, e)
 	}
 	src := x.render()
 	if *out == "" {
 		fmt.Print(src)
+		if failed {
+			os.Exit(1)
+		}
 		return
 	}
 	os.Remove(*out)
+	// When a fact could not be extracted the module is still written with everything that was (the tie is reported
+	// broken through the exit status): modules that need only the rest - a driver linking translated functions -
+	// keep building, so the search for a failing input can still run.
 	if err := os.WriteFile(*out, []byte(src), 0o644); err != nil {
 		fmt.Fprintln(os.Stderr, err)
+		os.Exit(1)
+	}
+	if failed {
 		os.Exit(1)
 	}
 }
